@@ -27,7 +27,7 @@ RULE = (
 )
 ASSUMPTIONS = ['single damage per probe', 'the damaged copy is taken after all handles are closed (WAL checkpointed)']
 
-WEIGHTS = {'add': 7, 'addpack': 8, 'pack': 5, 'clean': 2, 'repack': 2, 'delete': 2, 'loosen': 1, 'reopen': 1, 'aux_add': 1, 'import': 1}
+WEIGHTS = {'add': 7, 'addpack': 8, 'pack': 5, 'clean': 2, 'repack': 2, 'delete': 2, 'loosen': 1, 'reopen': 1, 'aux_add': 1, 'import': 1, 'addfail': 1}
 
 
 def strategy(tier):
